@@ -33,13 +33,51 @@ Max2I(a, b) == IF a >= b THEN a ELSE b
 Min2I(a, b) == IF a <= b THEN a ELSE b
 
 -----------------------------------------------------------------------------
-(* formed values *)
-CovPlusMinus(G, Bs, d1) == {k * d1 + b : k \in G, b \in Bs} \cup {k * d1 - b : k \in G \ {0}, b \in Bs}
-CovMinus(G, Bs, d1)     == {k * d1 - b : k \in G \ {0}, b \in Bs}
+(* formed values; G (giant multiples) and Bs (baby exponents) are finite sets of naturals *)
+SetMaxI(S) == IF S = {} THEN 0 ELSE CHOOSE x \in S : \A y \in S : x >= y
+AbsI(x) == IF x >= 0 THEN x ELSE 0 - x
 
-Caught(l, C) == l \in C \/ \E m \in C : m > 0 /\ m % l = 0
-Promise(C, lo, hi) == \A l \in ((lo + 1)..hi) \ C : ~IsPrimeI(l) \/ Caught(l, C)
-Uncovered(C, lo, hi) == {l \in ((lo + 1)..hi) \ C : IsPrimeI(l) /\ ~Caught(l, C)}
+\* is l = k*d1 + b or k*d1 - b for some k in G, b in Bs?  InG / InB are characteristic functions (constant
+\* time look-ups: TLC's set membership on large enumerated sets is linear)
+CharFn(S, hi) == [x \in 0..hi |-> x \in S]
+HitPM(l, InG, InB, d1, maxk, maxb) ==
+  LET span == (maxb \div d1) + 1
+      k0   == l \div d1
+  IN \E k \in Max2I(0, k0 - span)..Min2I(maxk, k0 + span + 1) :
+        InG[k] /\ LET b == AbsI(l - k * d1) IN b <= maxb /\ InB[b] /\ (k > 0 \/ l = b)
+HitMinus(l, InG, InB, d1, maxk, maxb) ==
+  LET span == (maxb \div d1) + 1
+      k0   == l \div d1
+  IN \E k \in Max2I(1, k0)..Min2I(maxk, k0 + span + 1) :
+        InG[k] /\ LET b == k * d1 - l IN b >= 0 /\ b <= maxb /\ InB[b]
+
+\* Hit(_) says whether a value is formed; reach = the largest formed value
+Caught(Hit(_), l, reach) == Hit(l) \/ \E j \in 2..(reach \div l) : Hit(j * l)
+\* cheap sieve first: most numbers are discarded before the grid is consulted
+SmallFactor(l) == l > 7 /\ (l % 2 = 0 \/ l % 3 = 0 \/ l % 5 = 0 \/ l % 7 = 0)
+Promise(Hit(_), lo, hi, reach) == \A l \in (lo + 1)..hi : SmallFactor(l) \/ Hit(l) \/ ~IsPrimeI(l) \/ Caught(Hit, l, reach)
+Uncovered(Hit(_), lo, hi, reach) == {l \in (lo + 1)..hi : ~SmallFactor(l) /\ ~Hit(l) /\ IsPrimeI(l) /\ ~Caught(Hit, l, reach)}
+
+\* the three grid shapes, from sets
+PromisePM(G, Bs, d1, lo, hi) ==
+  LET maxk == SetMaxI(G)  maxb == SetMaxI(Bs)
+      InG == CharFn(G, maxk)  InB == CharFn(Bs, maxb)
+  IN Promise(LAMBDA l : HitPM(l, InG, InB, d1, maxk, maxb), lo, hi, maxk * d1 + maxb)
+UncoveredPM(G, Bs, d1, lo, hi) ==
+  LET maxk == SetMaxI(G)  maxb == SetMaxI(Bs)
+      InG == CharFn(G, maxk)  InB == CharFn(Bs, maxb)
+  IN Uncovered(LAMBDA l : HitPM(l, InG, InB, d1, maxk, maxb), lo, hi, maxk * d1 + maxb)
+PromiseMinus(G, Bs, d1, lo, hi) ==
+  LET maxk == SetMaxI(G)  maxb == SetMaxI(Bs)
+      InG == CharFn(G, maxk)  InB == CharFn(Bs, maxb)
+  IN Promise(LAMBDA l : HitMinus(l, InG, InB, d1, maxk, maxb), lo, hi, maxk * d1)
+UncoveredMinus(G, Bs, d1, lo, hi) ==
+  LET maxk == SetMaxI(G)  maxb == SetMaxI(Bs)
+      InG == CharFn(G, maxk)  InB == CharFn(Bs, maxb)
+  IN Uncovered(LAMBDA l : HitMinus(l, InG, InB, d1, maxk, maxb), lo, hi, maxk * d1)
+PromiseWalk(W, lo, hi) ==
+  LET mx == SetMaxI(W)  InW == CharFn(W, mx)
+  IN Promise(LAMBDA l : l <= mx /\ InW[l], lo, hi, mx)
 
 -----------------------------------------------------------------------------
 (* transcription of the loops *)
